@@ -138,6 +138,9 @@ Fixpoint find_cid (view : bytes) (offs : list N) (key : bytes) (kp : cidp)
       match raw_uv s with
       | Err e => Err e
       | Ok (slen, r1, n1) =>
+        (* repaired (notes/fixes/C09-findcid-section-limit.patch): the size-only path enforces the
+           section limit like ReadNode does; it used to ignore maxReadBytes *)
+        if maxs <? slen then Err ESectionTooLarge else
         match cid_from_reader r1 with
         | CfrOk n c p _ =>
             if key_matches whole key kp c p
